@@ -22,7 +22,7 @@
    Randomness, salts, paddings and clocks are parameters, as in the codec models.  The two directions of one
    connection use independent parts of the codec state (Shadowsocks: cd_enc / cd_dec; VMess: two bodies), so each
    direction is run from a state in which the other direction's part is at its initial value
-   (EndToEndFacts.ss_encode_reads_enc_only / ss_decode_keeps_enc justify this for the shared Shadowsocks record). *)
+   (SsTcpStreamResp.ss_encode_reads_enc_only / ss_decode_keeps_enc justify this for the shared Shadowsocks record). *)
 From Coq Require Import NArith List Bool.
 From Octo Require Import Base.Bytes Crypto.Prims Lib.Framed Lib.WsFramed Model.Address Model.SsChunk Model.SsTcp
                          Model.Trojan Model.Vmess Model.Handshake.
